@@ -94,13 +94,17 @@ pub fn to_tree(v: &V, e: &mut Enc) -> JT {
             obj("time", vec![("val", JT::Str(t))])
         }
         V::DateTime(dt) => {
-            let local = dt.secs + dt.offset as i64;
+            // the instant may be spelled at the zone's offset or in UTC with the zone named in "tz"
+            // (writers that keep the instant as a UTC ISO string do the latter)
+            let in_utc = dt.tz != "UTC" && dt.offset != 0 && dt.offset % 60 == 0 && e.pick("val-in-utc", 2) == 1;
+            let spelled_offset = if in_utc { 0 } else { dt.offset };
+            let local = dt.secs + spelled_offset as i64;
             let days = local.div_euclid(86400);
             let sod = local.rem_euclid(86400) as u32;
             let (y, mo, d) = civil_from_days(days);
             let mut s = format!("{y:04}-{mo:02}-{d:02}T");
             s.push_str(&time_text(sod / 3600, (sod / 60) % 60, sod % 60, dt.nanos, e));
-            if dt.offset == 0 {
+            if spelled_offset == 0 {
                 match e.pick("zero-offset-spelling", 2) {
                     0 => s.push('Z'),
                     _ => s.push_str("+00:00"),
@@ -483,6 +487,11 @@ pub fn from_tree(t: &JT) -> Result<V, String> {
                         None => "UTC".to_string(),
                         Some(JT::Str(z)) => z.clone(),
                         Some(o) => return Err(format!("tz {o:?}")),
+                    };
+                    // the instant comes from "val"; the local offset is the named zone's at that instant
+                    let off = match super::time_ref::zone_of_city(&tz) {
+                        Some(z) if tz != "UTC" => super::time_ref::offset_at(&z, secs),
+                        _ => off,
                     };
                     V::DateTime(DT { secs, nanos, offset: off, tz_full: tz.clone(), tz })
                 }
